@@ -58,8 +58,8 @@ func NewMiningSetup(c *Concrete) (*MiningSetup, error) {
 	base := uint32(headerWeight + cbw + commitWeight())
 	return &MiningSetup{CbWeight: cbw, Subsidy: blockchain.CalcBlockSubsidy(c.H0+1, c.Params),
 		Policies: []MiningPolicy{
-			{MaxW: 3000000, MinW: 0, Prio: 0, MinFree: 1000},          // btcd-like defaults without a priority area
-			{MaxW: base + 900, MinW: 0, Prio: 0, MinFree: 0},         // room for about two small transactions
+			{MaxW: 3000000, MinW: 0, Prio: 0, MinFree: 1000},                // btcd-like defaults without a priority area
+			{MaxW: base + 900, MinW: 0, Prio: 0, MinFree: 0},                // room for about two small transactions
 			{MaxW: 4000000, MinW: base + 450, Prio: 200000, MinFree: 12000}, // priority area, min weight filled with low-fee transactions
 		}}, nil
 }
